@@ -21,7 +21,7 @@ fn c02_round_up_to_half() {
     let k = r - 0.5;
     assert!((k as i32) as f32 == k); // half-integer
     assert!(r > x); // the first pixel centre strictly right of / below the edge
-    assert!(r - x <= 1.0);
+    assert!(r - 1.0 <= x); // ... and the smallest such: the previous half-integer is not (r - 1 is exact)
     // exclusive pixel index: centre (k + 0.5) is the first centre at or right of... x
     assert!((r as usize) as f32 == k);
     kani::cover!(x > 100.25 && x < 100.5, "just left of a centre");
